@@ -1,5 +1,6 @@
 """C20 - connections are supervised and the callbacks are exact."""
 import itertools
+import os
 
 from .. import core
 from ..core import Result
@@ -33,6 +34,25 @@ def jobs(tier, seed):
         out.append({"kind": "random", "gw": kind, "flavour": fl, "seed": seed, "n": 40 if q else 1500, "maxlen": 12})
     for fl in ("threaded", "asyncio"):
         out.append({"kind": "watchdog", "flavour": fl, "seed": seed})
+    # real-device sample: real loopback sockets / ptys, real threads and loop, wall-clock time (one lifetime per job)
+    import random
+    rng = random.Random(seed * 7919 + 5)
+    for gw in ("tcp", "serial"):
+        loss = ["loss-eof", "loss-rst"] if gw == "tcp" else ["unplug"]
+        fixed = [["traffic"] + loss + ["traffic", "down", "traffic"], ["down"] + loss[-1:] + ["traffic"], loss[:1] * 3 + ["traffic"],
+                 ["traffic", "disconnect"], loss[-1:] + ["disconnect"]]
+        if gw == "tcp":
+            fixed += [["traffic", "silence", "traffic"], ["silence", "loss-rst", "silence"]]
+        alpha = ["traffic", "down"] + loss + (["silence"] if gw == "tcp" else [])
+        for fl in ("threaded", "asyncio"):
+            scripts = list(fixed) + [[rng.choice(alpha) for _ in range(rng.randint(2, 5))] for _ in range(1 if q else 12)]
+            for k, sc in enumerate(scripts):
+                out.append({"kind": "real", "gw": gw, "flavour": fl, "script": sc, "rt": [0.4, 0.3, 0.6][(k + seed) % 3], "hold": 0.0})
+            if gw == "tcp":
+                out.append({"kind": "real", "gw": gw, "flavour": fl, "script": ["traffic"], "rt": 0.5, "hold": 3.0})   # answering link held for 6 x rt
+    only = os.environ.get("VF_C20_ONLY")      # development aid: restrict to one job kind
+    if only:
+        out = [j for j in out if j["kind"] == only]
     return out
 
 
@@ -75,6 +95,68 @@ def judge(res, ev, meta, extra=()):
     return V
 
 
+def run_real_job(job, res, reproduce=2):
+    """One real lifetime. An anomaly counts only when the same lifetime shows it again on every re-run (wall-clock
+    deadlines on a loaded machine must not become verdicts)."""
+    from .. import realdev as R
+
+    tag = f"{job['gw']}/{job['flavour']}"
+
+    def once():
+        try:
+            ev, meta = R.run_real(job["gw"], job["flavour"], job["script"], rt=job["rt"], hold=job.get("hold", 0.0))
+        except (OSError, RuntimeError) as exc:
+            if isinstance(exc, OSError) and exc.errno in (1, 13, 97, 99, 2, 19):
+                return None, None, repr(exc)
+            raise
+        return ev, meta, None
+
+    ev, meta, unavailable = once()
+    if unavailable:
+        res.count("real_device_unavailable")
+        res.notes.append(f"real-device sample unavailable here: {unavailable}")
+        return
+    V = R.check_real(ev, meta)
+    res.evals += 1
+    res.count("real_lifetimes")
+    res.count(f"real_lifetimes[{tag}]")
+    res.count("real_events", len(ev))
+    res.count("real_made_callbacks", sum(1 for e in ev if e[1] == "MADE"))
+    res.count("real_lost_callbacks", sum(1 for e in ev if e[1] == "LOST"))
+    res.count("real_connect_attempts", sum(1 for e in ev if e[1] == "CONNECT-BEGIN"))
+    res.count("real_failed_connect_attempts", sum(1 for e in ev if e[1] == "CONNECT-END" and e[2] == "fail"))
+    res.count("real_wait_timeouts", sum(1 for e in ev if e[1] == "WAIT-TIMEOUT"))
+    if meta.get("other_thread_errors"):
+        res.count("real_lifetimes_where_a_reader_or_connect_thread_ended_with_an_exception")
+    if sum(1 for e in ev if e[1] == "LOST") >= 1 and sum(1 for e in ev if e[1] == "CONNECT-BEGIN") >= 2:
+        res.nontrivial(("real", job["gw"], job["flavour"], tuple(job["script"]), job["rt"]))
+    if V and reproduce:
+        keep = {s for s, _ in V}
+        for _ in range(reproduce):
+            ev2, meta2, un = once()
+            if un:
+                keep = set()
+                break
+            keep &= {s for s, _ in R.check_real(ev2, meta2)}
+            if not keep:
+                break
+        dropped = [s for s, _ in V if s not in keep]
+        if dropped:
+            res.count("real_anomalies_not_reproduced", len(dropped))
+            res.notes.append(f"real-device anomaly not reproduced on re-run (not judged): {dropped[:3]} script={job['script']} {tag}")
+        V = [(s, w) for s, w in V if s in keep]
+    case = {"real": True, "gw": job["gw"], "flavour": job["flavour"], "script": job["script"], "rt": job["rt"], "hold": job.get("hold", 0.0)}
+
+    def show(e):
+        return [str(x)[:60] for x in e]
+
+    for sig, what in V:
+        res.violation(sig, what + f"  [real device, script {job['script']} rt={job['rt']}]", dict(case, log=[show(e) for e in ev][:120]))
+    if job.get("hold") or job["script"][:1] == ["down"]:
+        res.sample({"real": True, "gw": job["gw"], "flavour": job["flavour"], "script": job["script"], "rt": job["rt"],
+                    "log": [show(e) for e in ev if e[1] not in ("RX", "ANSWER")][:30]})
+
+
 def run(job):
     import faulthandler
 
@@ -90,6 +172,8 @@ def run(job):
                 if k == 0 and job["i"] == 0:
                     res.sample({"gw": job["gw"], "flavour": job["flavour"], "script": script, "rt": rt,
                                 "log": [list(map(str, e)) for e in ev if e[1] != "SLEEP"][:25]})
+        elif job["kind"] == "real":
+            run_real_job(job, res)
         elif job["kind"] == "random":
             rng = core.rng_for(ID, job["seed"], job["gw"], job["flavour"])
             alpha = ALPHA[(job["gw"], job["flavour"])]
@@ -129,6 +213,9 @@ def replay(case):
     from .. import lifetimes as L
 
     res = Result()
+    if case.get("real"):
+        run_real_job({"gw": case["gw"], "flavour": case["flavour"], "script": case["script"], "rt": case["rt"], "hold": case.get("hold", 0.0)}, res)
+        return res
     ev, meta = run_life(case["gw"], case["flavour"], case["seed"], case["script"], case["rt"], answer=case.get("answer", 0.1), hold=case.get("hold", 0.0))
     extra = []
     if case.get("hold"):
@@ -150,15 +237,25 @@ def finish(agg, tier):
                 "loss, retries spaced by reconnect_timeout, requests answered on live connections, nothing after stop() returned, no "
                 "library thread or loop error. TCP watchdog: links answering version probes with latency 0 / 0.5 / 0.9 x rt are never "
                 "dropped, silent links are dropped and re-dialled between 2 and 3 x rt. distinct = (gateway, flavour, script, rt); "
-                "non-trivial when >= 1 loss and >= 1 reconnect were judged.",
+                "non-trivial when >= 1 loss and >= 1 reconnect were judged. Real-device sample: the same four gateways over real "
+                "127.0.0.1 sockets and real ptys (symlinked path, unplug = path and pty disappear), the library's real threads / a real "
+                "asyncio loop, wall-clock time with reconnect_timeout 0.3-0.6 s; scripts of {traffic, orderly close, reset, unplug, "
+                "device away for 3.3 x rt, silent link, user disconnect} ended by stop(); oracle: callbacks exactly once per connection, "
+                "connect attempt + loss callback after every unrequested loss, >= 2 retries no closer than rt while the device is away, "
+                "no reconnect after a user disconnect, nothing (callbacks, connects, bytes at the device) after stop(), answered links "
+                "never dropped, silent links dropped no earlier than 2 x rt; an anomaly counts only if it reproduces on two re-runs.",
         "exhaustive": True,
         "floors": [("lifetimes", c.get("lifetimes", 0), 1500), ("lifetimes_with_loss_and_reconnect", c.get("lifetimes_with_loss_and_reconnect", 0), 500),
                    ("watchdog_answering_links", c.get("watchdog_answering_links", 0), 18), ("watchdog_silent_links", c.get("watchdog_silent_links", 0), 12)]
-                  + [(f"loss_and_reconnect[{k}/{fl}]", c.get(f"loss_and_reconnect[{k}/{fl}]", 0), 40) for (k, fl) in ALPHA],
-        "assumptions": ["fakes mimic the failure behaviour of serial ports, sockets and asyncio transports; 'about twice' = [2, 3] x rt",
+                  + [(f"loss_and_reconnect[{k}/{fl}]", c.get(f"loss_and_reconnect[{k}/{fl}]", 0), 40) for (k, fl) in ALPHA]
+                  + ([] if c.get("real_device_unavailable") else
+                     [(f"real_lifetimes[{k}/{fl}]", c.get(f"real_lifetimes[{k}/{fl}]", 0), 5) for (k, fl) in ALPHA]),
+        "assumptions": ["real-device sample: deadlines are generous (6 x rt + 4 s) and anomalies must reproduce 3/3; it is skipped (noted) where ptys / loopback are unavailable",
+                        "fakes mimic the failure behaviour of serial ports, sockets and asyncio transports; 'about twice' = [2, 3] x rt",
                         "on the threaded TCP gateway a peer's orderly close is only observable through a failing write or the "
                         "watchdog: loss callback and re-dial are required within 3 x rt",
                         "asyncio: 'after stop()' is judged once stop() returned and the ready handles have run",
                         "the value of the error argument of on_conn_lost is not judged"],
-        "show": ["lifetimes", "lifetimes_with_loss_and_reconnect", "connect_attempts", "made_callbacks", "lost_callbacks", "watchdog_answering_links", "watchdog_silent_links"],
+        "show": ["lifetimes", "lifetimes_with_loss_and_reconnect", "connect_attempts", "made_callbacks", "lost_callbacks", "watchdog_answering_links", "watchdog_silent_links",
+                 "real_lifetimes", "real_made_callbacks", "real_lost_callbacks", "real_failed_connect_attempts", "real_anomalies_not_reproduced"],
     }
